@@ -286,9 +286,12 @@ Definition row_spans (row : rx_row) (line : bytes) : res (option (list (option (
 (* a symbolic character: one concrete byte, or any ONE byte of a set of ASCII bytes; a symbolic text
    ends either at the end of the haystack or in an unconstrained remainder *)
 Inductive sym := SyB (b : N) | SyS (set : list N).
-Inductive stail := TEnd | TAny.
-Record sst := mkS { s_pos : N; s_abs : bool; s_rem : list sym; s_tail : stail; s_caps : list (N * (N * N)) }.
-(* s_abs = the position is an absolute haystack offset (then `^` is decided) *)
+(* tail: end of the haystack / anything / any number (possibly zero) of bytes all taken from a set of ASCII bytes *)
+Inductive stail := TEnd | TAny | TStar (set : list N).
+(* what is known about the haystack offset of symbolic position 0:
+   OAbs = it is offset 0 (`^` is decided by s_pos); ONz = it is some offset >= 1 (`^` fails); OUnk = nothing *)
+Inductive org := OAbs | ONz | OUnk.
+Record sst := mkS { s_pos : N; s_org : org; s_rem : list sym; s_tail : stail; s_caps : list (N * (N * N)) }.
 
 Definition sym_ascii (y : sym) : bool :=
   match y with SyB b => b <? 128 | SyS l => forallb (fun b => b <? 128) l end.
@@ -306,22 +309,27 @@ Definition lead_len (b : N) : nat :=
 
 Definition s_step_cp (p : N -> bool) (s : sst) : sres sst :=
   match s_rem s with
-  | [] => match s_tail s with TEnd => SFail | TAny => SUnk end
+  | [] => match s_tail s with
+          | TEnd => SFail
+          | TAny => SUnk
+          | TStar set => (* the next byte, if there is one, is an ASCII byte of the set: one code point *)
+              if forallb (fun b => (b <? 128) && negb (p b)) set then SFail else SUnk
+          end
   | SyS set :: r =>
       if forallb (fun b => b <? 128) set then
         match set with
         | [] => SUnk
-        | _ => if forallb p set then SOk (mkS (s_pos s + 1) (s_abs s) r (s_tail s) (s_caps s))
+        | _ => if forallb p set then SOk (mkS (s_pos s + 1) (s_org s) r (s_tail s) (s_caps s))
                else if forallb (fun b => negb (p b)) set then SFail else SUnk
         end
       else SUnk
   | SyB b :: r =>
-      if b <? 128 then (if p b then SOk (mkS (s_pos s + 1) (s_abs s) r (s_tail s) (s_caps s)) else SFail)
+      if b <? 128 then (if p b then SOk (mkS (s_pos s + 1) (s_org s) r (s_tail s) (s_caps s)) else SFail)
       else let n := lead_len b in
            match sym_bytes n (s_rem s) with
            | Some bs => match decode bs with
                         | Some (c, len, _) =>
-                            if p c then SOk (mkS (s_pos s + len) (s_abs s) (skipn (N.to_nat len) (s_rem s)) (s_tail s) (s_caps s))
+                            if p c then SOk (mkS (s_pos s + len) (s_org s) (skipn (N.to_nat len) (s_rem s)) (s_tail s) (s_caps s))
                             else SFail
                         | None => (* the n concrete bytes are no valid encoding *) SFail
                         end
@@ -340,23 +348,32 @@ Fixpoint s_eat (l : bytes) (rem : list sym) (tail : stail) (pos : N) : sres (N *
                    | _ => if forallb (N.eqb x) set then s_eat l' rem' tail (pos + 1)
                           else if forallb (fun b => negb (x =? b)) set then SFail else SUnk
                    end
-               | [] => match tail with TEnd => SFail | TAny => SUnk end
+               | [] => match tail with
+                       | TEnd => SFail
+                       | TAny => SUnk
+                       | TStar set => if forallb (fun b => negb (x =? b)) set then SFail else SUnk
+                       end
                end
   end.
 Definition s_step_bytes (l : bytes) (s : sst) : sres sst :=
   match s_eat l (s_rem s) (s_tail s) (s_pos s) with
-  | SOk (p, r) => SOk (mkS p (s_abs s) r (s_tail s) (s_caps s))
+  | SOk (p, r) => SOk (mkS p (s_org s) r (s_tail s) (s_caps s))
   | SFail => SFail
   | SUnk => SUnk
   end.
-Definition s_at_bol (s : sst) : tri := if s_abs s then (if s_pos s =? 0 then TT else TF) else TU.
+Definition s_at_bol (s : sst) : tri :=
+  match s_org s with
+  | OAbs => if s_pos s =? 0 then TT else TF
+  | ONz => TF
+  | OUnk => TU
+  end.
 Definition s_at_eol (s : sst) : tri :=
   match s_rem s with
   | _ :: _ => TF
-  | [] => match s_tail s with TEnd => TT | TAny => TU end
+  | [] => match s_tail s with TEnd => TT | _ => TU end
   end.
 Definition s_set_group (g : N) (s0 s1 : sst) : sst :=
-  mkS (s_pos s1) (s_abs s1) (s_rem s1) (s_tail s1) ((g, (s_pos s0, s_pos s1)) :: s_caps s1).
+  mkS (s_pos s1) (s_org s1) (s_rem s1) (s_tail s1) ((g, (s_pos s0, s_pos s1)) :: s_caps s1).
 Definition s_progressed (s0 s1 : sst) : bool := s_pos s0 <? s_pos s1.
 
 Definition sm (A : Type) (fuel : nat) : re -> sst -> (sst -> res A) -> res A :=
